@@ -125,15 +125,11 @@ def _multiset_diff(exp, got, path, out):
                 out.append((f"{path}:{label}", {"expected": _brief(x), "observed": _brief(m)}))
                 ee.remove(x)
                 gg.remove(m)
-    if ee and gg and len(ee) == len(gg):
-        out.append((f"{path}:differs", {"expected": [_brief(x) for x in ee], "observed": [_brief(x) for x in gg]}))
-    elif ee or gg:
-        if ee:
-            out.append((f"{path}:missing", {"missing": [_brief(x) for x in ee], "unexpected": [_brief(x) for x in gg]}))
-        if gg and not ee:
-            out.append((f"{path}:extra", {"unexpected": [_brief(x) for x in gg]}))
-        elif gg:
-            out.append((f"{path}:extra", {"unexpected": [_brief(x) for x in gg]}))
+    # a replaced check shows up as one missing + one extra entry (two buckets, each attributable on its own)
+    if ee:
+        out.append((f"{path}:missing", {"missing": [_brief(x) for x in ee]}))
+    if gg:
+        out.append((f"{path}:extra", {"unexpected": [_brief(x) for x in gg]}))
 
 
 def _brief(d):
